@@ -67,6 +67,8 @@ theorem remask_only_update_drifts_counterexample :
 
 /-! ## 2. restricted fit -/
 
+theorem clamp_ge (x : Int) : x ≤ (if x < 0 then 0 else x) := by split <;> omega
+
 theorem fitOK_cons (b : Bool) (t : List Bool) : fitOK (b :: t) = true ↔ b = false ∧ fitOK t = true := by
   simp [fitOK]
 
@@ -108,10 +110,9 @@ theorem never_overallocated (r : RInfo) (q : Vec) (hex : Exact r)
   intro d hd hn hq
   have := restricted_fit_sound r q vzero 0 hfit d hd hn hq
   rw [← hex d]
-  simp only [vzero] at this
-  rcases Int.lt_or_ge (r.allocated d - 0) 0 with hc | hc
-  · rw [if_pos hc] at this; omega
-  · rw [if_neg (by omega)] at this; omega
+  have h0 := clamp_ge (r.allocated d - vzero d)
+  have hz : vzero d = 0 := rfl
+  omega
 
 /-- … and after the admitted pod is assigned, Allocated itself is within the reservation in those dimensions -/
 theorem admit_keeps_within (r : RInfo) (p : Pod) (hnew : hasPod r.assigned p.uid = false)
@@ -121,10 +122,9 @@ theorem admit_keeps_within (r : RInfo) (p : Pod) (hnew : hasPod r.assigned p.uid
   intro d hd hn hq
   have := restricted_fit_sound r p.req vzero 0 hfit d hd hn hq
   simp only [addAssigned, hnew, Bool.false_eq_true, if_false, vadd, vmask, hn, if_true]
-  simp only [vzero] at this
-  rcases Int.lt_or_ge (r.allocated d - 0) 0 with hc | hc
-  · rw [if_pos hc] at this; omega
-  · rw [if_neg (by omega)] at this; omega
+  have h0 := clamp_ge (r.allocated d - vzero d)
+  have hz : vzero d = 0 := rfl
+  omega
 
 /-! ## 3. allocate-once -/
 
